@@ -64,6 +64,8 @@ structure IntScan where
   mag : Nat
   rest : Str
 
+def IntScan.val (r : IntScan) : Int := if r.neg then -(r.mag : Int) else (r.mag : Int)
+
 /-- leading white space, optional sign, one or more decimal digits; `rest` is what follows -/
 def scanInt (s : Str) : Option IntScan :=
   let st := takeSign (s.dropWhile isSpace)
@@ -75,8 +77,7 @@ def stoSigned (bits : Nat) (s : Str) : Except StoErr (Int × Str) :=
   match scanInt s with
   | none => .error .invalidArgument
   | some r =>
-    let v : Int := if r.neg then -(r.mag : Int) else (r.mag : Int)
-    if v < -((2 : Int) ^ (bits - 1)) ∨ v ≥ (2 : Int) ^ (bits - 1) then .error .outOfRange else .ok (v, r.rest)
+    if r.val < -((2 : Int) ^ (bits - 1)) ∨ r.val ≥ (2 : Int) ^ (bits - 1) then .error .outOfRange else .ok (r.val, r.rest)
 
 def stoi := stoSigned 32
 def stoll := stoSigned 64
@@ -130,6 +131,11 @@ def scanNanTail (r : Str) : Str :=
     | _ => r
   | _ => r
 
+/-- what follows a `0x` / `0X` prefix -/
+def hexBody? : Str → Option Str
+  | c :: x :: t => if c == '0' && (x == 'x' || x == 'X') then some t else none
+  | _ => none
+
 /-- glibc `strtod` (also `strtof`, `strtold`): value of the longest valid prefix and the rest -/
 def scanFloat (s : Str) : Option (FVal × Str) :=
   let st := takeSign (s.dropWhile isSpace)
@@ -145,16 +151,14 @@ def scanFloat (s : Str) : Option (FVal × Str) :=
       | some (ip, fp, r) =>
         let ex := scanExp 'e' 'E' r
         some (.fin neg (natOfDigits (ip ++ fp)) 10 (ex.1 - fp.length), ex.2)
-    match b with
-    | '0' :: x :: t =>
-      if x == 'x' || x == 'X' then
-        match scanMant isHexDigit t with
-        | some (ip, fp, r) =>
-          let ex := scanExp 'p' 'P' r
-          some (.fin neg (natOfHex (ip ++ fp)) 2 (ex.1 - 4 * fp.length), ex.2)
-        | none => dec
-      else dec
-    | _ => dec
+    match hexBody? b with
+    | some t =>
+      match scanMant isHexDigit t with
+      | some (ip, fp, r) =>
+        let ex := scanExp 'p' 'P' r
+        some (.fin neg (natOfHex (ip ++ fp)) 2 (ex.1 - 4 * fp.length), ex.2)
+      | none => dec                       -- "0x" without hex digits: the "0" is a decimal literal
+    | none => dec
 
 /-! ## round-to-nearest-even to a binary format
 
@@ -409,31 +413,27 @@ def pointNumeral? (isD : Char → Bool) (s : Str) : Option (Str × Nat) :=
     some (s.filter isD, match (cutAt (· == '.') s).2 with | some f => f.length | none => 0)
   else none
 
-/-- decimal floating literal `pointNumeral [ (e|E) signedDigits ]` as `(mant, exp)`: value `mant * 10 ^ exp` -/
-def decLiteral? (s : Str) : Option (Nat × Int) :=
-  let c := cutAt (fun ch => ch == 'e' || ch == 'E') s
-  match pointNumeral? Char.isDigit c.1 with
+/-- `pointNumeral [ (lo|up) signedDigits ]`: the digits, how many of them are fractional, and the
+    exponent written after the marker (0 when there is none) -/
+def genLiteral? (isD : Char → Bool) (lo up : Char) (s : Str) : Option (Str × Nat × Int) :=
+  let c := cutAt (fun ch => ch == lo || ch == up) s
+  match pointNumeral? isD c.1 with
   | none => none
   | some (ds, nfrac) =>
     match c.2 with
-    | none => some (natOfDigits ds, -(nfrac : Int))
+    | none => some (ds, nfrac, 0)
     | some ex =>
       match signedDigits? ex with
-      | some e => some (natOfDigits ds, e - nfrac)
+      | some e => some (ds, nfrac, e)
       | none => none
 
-/-- hexadecimal floating literal (after `0x`): `pointNumeral [ (p|P) signedDigits ]`, value `mant * 2 ^ exp` -/
+/-- decimal floating literal as `(mant, exp)`: value `mant * 10 ^ exp` -/
+def decLiteral? (s : Str) : Option (Nat × Int) :=
+  (genLiteral? Char.isDigit 'e' 'E' s).map fun r => (natOfDigits r.1, r.2.2 - (r.2.1 : Int))
+
+/-- hexadecimal floating literal (what follows `0x`) as `(mant, exp)`: value `mant * 2 ^ exp` -/
 def hexLiteral? (s : Str) : Option (Nat × Int) :=
-  let c := cutAt (fun ch => ch == 'p' || ch == 'P') s
-  match pointNumeral? isHexDigit c.1 with
-  | none => none
-  | some (ds, nfrac) =>
-    match c.2 with
-    | none => some (natOfHex ds, -(4 * nfrac : Int))
-    | some ex =>
-      match signedDigits? ex with
-      | some e => some (natOfHex ds, e - 4 * nfrac)
-      | none => none
+  (genLiteral? isHexDigit 'p' 'P' s).map fun r => (natOfHex r.1, r.2.2 - 4 * (r.2.1 : Int))
 
 /-- `nan` optionally followed by `(letters, digits, underscores)` -/
 def isNanWord (s : Str) : Bool :=
@@ -451,14 +451,9 @@ def floatNumeral? (s : Str) : Option FVal :=
   if lower == "inf".toList || lower == "infinity".toList then some (.inf st.1)
   else if isNanWord b then some .nan
   else
-    match b with
-    | '0' :: x :: t =>
-      if (x == 'x' || x == 'X') then
-        match hexLiteral? t with
-        | some (m, e) => some (.fin st.1 m 2 e)
-        | none => (decLiteral? b).map (fun r => FVal.fin st.1 r.1 10 r.2)
-      else (decLiteral? b).map (fun r => FVal.fin st.1 r.1 10 r.2)
-    | _ => (decLiteral? b).map (fun r => FVal.fin st.1 r.1 10 r.2)
+    match hexBody? b with
+    | some t => (hexLiteral? t).map (fun r => FVal.fin st.1 r.1 2 r.2)
+    | none => (decLiteral? b).map (fun r => FVal.fin st.1 r.1 10 r.2)
 
 /-- a floating numeral that the binary format can hold (finite ones: not rounding to infinity and
     not below the smallest normal number) -/
@@ -535,16 +530,16 @@ def validReading (k : ArgKind) (fs : Str) (total : Int) (s : Str) : Option Val :
   | .double => (floatIn binary64 s).map Val.flt
   | .float => (floatIn binary32 s).map Val.flt
   | .bool =>
-    if s ∈ ["true".toList, "True".toList, "1".toList] then some (.bool true)
-    else if s ∈ ["false".toList, "False".toList, "0".toList] then some (.bool false)
+    if s == "true".toList || s == "True".toList || s == "1".toList then some (.bool true)
+    else if s == "false".toList || s == "False".toList || s == "0".toList then some (.bool false)
     else none
   | .string => some (.str s)
   | .resource =>
-    if s = "io".toList then some (.resource true)
-    else if s = "memory".toList then some (.resource false) else none
+    if s == "io".toList then some (.resource true)
+    else if s == "memory".toList then some (.resource false) else none
   | .cgroup => some (.cgroups ((Path.split s ',').map (Path.mk fs)))
   | .sizepct => (validSizeOrPercent s total).map Val.int
-  | .nonempty => if s ≠ [] then some (.str s) else none
+  | .nonempty => if s.isEmpty then none else some (.str s)
   | .unknown => none
 
 end Spec
